@@ -1,4 +1,4 @@
-CONSTANTS N = 1  D = 2  MaxExtra = 3
+CONSTANTS N = 1  D = 2  MaxExtra = 2
   ShapeIds = {"plain", "scaled", "bent", "onesided", "topsided", "flat", "nodefknot", "lowknot"}
   Vals = {0, 3}  Sparse = {FALSE, TRUE}
 INIT Init
